@@ -454,9 +454,113 @@ def rule_counts(ctx: Ctx) -> None:
     ctx.require(n >= 2, "format2dict: placeholder rows not found")
 
 
+def rule_selection(ctx: Ctx) -> None:
+    """analyze(scene, area, distance): a selection is applied iff it is given (0 is a valid scene / area index), and every table is computed from the selected rows."""
+    fi = ctx.func(A3 + "analyze")
+    paths = [p for p in enum_paths(ctx, fi) if p.exit == ("return",)]
+    ctx.require(len(paths) >= 8, "analyze: paths")
+    n = 0
+    for p in paths:
+        conds = [(S(c[0]), c[1]) for c in p.conds if isinstance(c, tuple)]
+        sel: Dict[str, Optional[bool]] = {}
+        for prm in ("scene", "area", "distance"):
+            def direct(a: str) -> bool:
+                b = a.split(":", 1)[1]
+                return b == prm or re.match(rf"^{prm}(==|!=|<=|>=|<|>|is|in)", b) is not None or re.search(rf"(==|!=|<=|>=|<|>){prm}$", b) is not None
+
+            atoms = [(a, v) for a, v in conds if direct(a)]
+            bad = [a for a, v in atoms if a != f"none:{prm}"]
+            ctx.check(not bad, "C19-selection", "PerceptionAnalyzer3D.analyze", f"{prm}:none-test",
+                      f"whether the `{prm}` selection applies is decided by {bad}; it must be decided by `{prm} is not None` only (0 is a valid {prm}; a falsy value must still select)", fi=fi,
+                      expected=f"{prm} is not None", found=str(bad), sample={"param": prm})
+            sel[prm] = next((not v for a, v in atoms if a == f"none:{prm}"), None)
+        ups = {}
+        for e in p.effects:
+            if e.kind == "call" and e.name == "update" and e.recv is not None and strip_v(S(e.recv)) == "kwargs" and e.args:
+                m = re.match(r"^\{'(\w+)':(\w+)\}$", S(e.args[0]))
+                if m:
+                    ups[m.group(1)] = m.group(2)
+        for prm in ("scene", "area"):
+            if sel[prm] is None:
+                continue
+            ctx.check((ups.get(prm) == prm) == sel[prm], "C19-selection", "PerceptionAnalyzer3D.analyze", f"{prm}:applied:{sel[prm]}",
+                      f"`{prm}` {'given' if sel[prm] else 'not given'} but the row filter receives {ups}", fi=fi)
+        gets = [e for e in p.effects if e.kind == "call" and e.name == "get" and S(e.recv) == "self"]
+        ctx.check(len(gets) == 1 and strip_v(S(gets[0].kwargs.get("**"))) == "kwargs", "C19-selection", "PerceptionAnalyzer3D.analyze", "rows", "the analysed rows are not self.get(**kwargs)", fi=fi)
+        if not gets:
+            continue
+        base = f"self.get(**{S(gets[0].kwargs.get('**'))})"
+        rows = f"self.filter_by_distance(distance,{base})" if sel["distance"] else base
+        for e in p.effects:
+            if e.kind == "call" and e.name in ("summarize_ratio", "summarize_error", "get_confusion_matrix") and S(e.recv) == "self":
+                n += 1
+                got = S(e.kwargs.get("df")) if "df" in e.kwargs else (S(e.args[0]) if e.args else "None")
+                ctx.check(strip_v(got) == strip_v(rows), "C19-selection", "PerceptionAnalyzer3D.analyze", f"{e.name}:distance={sel['distance']}",
+                          f"{e.name} is computed from `{got[:120]}`; expected the selected rows `{rows}`", fi=fi, expected=rows, found=got[:160])
+    ctx.require(n >= 6, "analyze: summary calls not found")
+    # analyzer-wide: an index-valued optional selection (scene / area number, 0 is valid) is never tested by truthiness
+    k = 0
+    for qn, f in sorted(ctx.index.functions.items()):
+        if not qn.startswith("perception_eval.tool.") or ".<locals>." in qn:
+            continue
+        prms = {}
+        for a in f.node.args.args + f.node.args.kwonlyargs:
+            if a.annotation is None:
+                continue
+            t = ast.unparse(a.annotation).replace(" ", "")
+            if t.startswith("Optional[") and re.search(r"\bint\b", t) and not re.search(r"\b(str|bool|float)\b", t) and t not in ("Optional[List[int]]",):
+                prms[a.arg] = t
+        if not prms:
+            continue
+        ctx.touch(f)
+        for prm, t in prms.items():
+            k += 1
+            bad = []
+            for nd in ast.walk(f.node):
+                if isinstance(nd, (ast.If, ast.IfExp, ast.While, ast.Assert)):
+                    stack = [nd.test]
+                    while stack:
+                        x = stack.pop()
+                        if isinstance(x, ast.Name) and x.id == prm:
+                            bad.append(nd.lineno)
+                        elif isinstance(x, ast.UnaryOp) and isinstance(x.op, ast.Not):
+                            stack.append(x.operand)
+                        elif isinstance(x, ast.BoolOp):
+                            stack.extend(x.values)
+            ctx.check(not bad, "C19-selection", f.qualname.split("tool.", 1)[1], f"{prm}:none-test",
+                      f"the optional index `{prm}: {t}` is tested by truthiness (line(s) {bad}); 0 is a valid index, the test must be `is None` / `is not None`", fi=f)
+    ctx.require(k >= 4, f"C19-selection: only {k} optional index parameters found in tool/ (hand-confirmed minimum 4)")
+    # the row filter itself: both rows of a pair are kept iff either matches
+    ff = ctx.func(AB + "filter")
+    for p in enum_paths(ctx, ff):
+        if p.exit != ("return",):
+            continue
+        lps = [e for e in p.effects if e.kind == "loop" and S(e.text) == "kwargs.items()"]
+        ctx.require(len(lps) == 1, "filter: selection loop not recognised")
+        pre_mask = S(lps[0].pre.get("mask")) if lps[0].pre.get("mask") is not None else [S(e.value) for e in p.effects if e.kind == "assign" and e.recv == "mask"][:1]
+        ctx.check(pre_mask in ("np.ones(len(self),dtype=np.bool8)", ["np.ones(len(self),dtype=np.bool8)"], "np.ones(len(self),dtype=bool)", ["np.ones(len(self),dtype=bool)"]), "C19-selection", "filter", "mask-init",
+                  f"the row mask starts as {pre_mask}; expected all rows selected", fi=ff)
+        rv = strip_v(S(p.retval))
+        ctx.check(rv in ("self.df[mask]", "self.df[mask][list(args)]", "df", "df[mask]", "df[mask][list(args)]"), "C19-selection", "filter", f"returns:{rv}", f"filter returns `{rv}`; expected the masked table", fi=ff)
+        kv, iv = [U(x) for x in lps[0].node.target.elts]
+        for bp in lps[0].body:
+            isn = fact_where(bp, lambda k: S(k) == f"none:{iv}")
+            augs = [(x.name, S(x.value)) for x in bp.effects if x.kind == "aug" and strip_v(S(x.recv)) == "mask"]
+            if isn:
+                ctx.check(not augs, "C19-selection", "filter", "none", f"a None selection narrows the mask by {augs}", fi=ff)
+                continue
+            multi = fact_where(bp, lambda k: S(k) == f"isinstance:{iv},str") is False and fact_where(bp, lambda k: S(k) == f"isinstance:{iv},Iterable")
+            cm = f"self.df[{kv}].isin({iv})" if multi else f"(self.df[{kv}]=={iv})"
+            want = [("Mult", f"{cm}.groupby(level=0).any().repeat(2).values")]
+            ctx.check([(a, strip_v(b)) for a, b in augs] == want, "C19-selection", "filter", "multi" if multi else "single",
+                      f"selection `{kv}={iv}` narrows the mask by {augs}; expected {want} (a pair is kept when either of its rows matches)", fi=ff, expected=str(want), found=str(augs))
+
+
 def run(ctx: Ctx) -> None:
     ctx.run(rule_emission)
     ctx.run(rule_fields)
     ctx.run(rule_errors)
     ctx.run(rule_counts)
+    ctx.run(rule_selection)
+    ctx.run(C03.rule_critical)  # the lists tabulated are computed from the CRITICAL ground truth (count = number of critical ground truths)
     ctx.run(G.rule_tf, ("perception_eval.tool",), "R-TF", None, 3)
